@@ -12,6 +12,7 @@ Effect trace of dump_to_path, proved function by function (callers against calle
 With the consumer draining stream i before asking for stream i+1 (P-seq, discharged for the driver in C05) every data-file
 copy precedes the descriptor copy.
 """
+from contracts import findings_natives as KF
 from contracts.common import Item
 from contracts import dumpers as DM, natives as N
 
@@ -26,4 +27,5 @@ ITEMS = [
     Item('FileDumper.handle_datapackage', DM.sym_handle_datapackage, [], DM.D + 'file_dumper.py::FileDumper.handle_datapackage'),
     Item('PathDumper.write_file_to_output', DM.sym_write_file_to_output, [], DM.D + 'to_path.py::PathDumper.write_file_to_output'),
     Item('PathDumper.write_file_to_output.faulty', DM.sym_write_file_to_output_faulty, [], DM.D + 'to_path.py::PathDumper.write_file_to_output'),
+    Item('recorded-findings', None, [('bounded', KF.nat_findings_c19)], 'dataflows/processors/dumpers/dumper_base.py::DumperBase.process_resources'),
 ]
